@@ -156,7 +156,9 @@ class YosysBehavioralRTLIRToVVisitorL1( BehavioralRTLIRToVVisitorL1 ):
         n_zero = nbits - cur_nbits
         return f"{{ {{ {n_zero} {{ 1'b0 }} }}, {value_str} }}"
 
-    return f"{nbits}'d{value}"
+    # The folded constant can be a negative Python int ( Bits8(-3) ) and
+    # <nbits>'d-3 is not Verilog: emit its two's complement
+    return sized_decimal( nbits, value )
 
   #-----------------------------------------------------------------------
   # visit_Attribute
